@@ -123,10 +123,10 @@ pub fn gen_case(env: &Env, src: &mut Src<'_>) -> GenCase {
     let thorough = env.thorough();
     let shards = src.pick(&[1usize, 2, 3, 5, 1, 2]);
     let malicious = src.bool();
-    let pad = match src.below(if thorough { 40 } else { 60 }) {
-        0 => Pad::Default,
-        1..=3 => Pad::Relaxed,
-        4..=9 => Pad::Tiny,
+    let pad = match src.below(if thorough { 40 } else { 45 }) {
+        0 | 1 => Pad::Default,
+        2..=4 => Pad::Relaxed,
+        5..=10 => Pad::Tiny,
         _ => Pad::None,
     };
     let overflow = src.chance(1, 12);
